@@ -1391,11 +1391,12 @@ static int state_check_process(struct snapraid_state* state, int fix, struct sna
 					 * If you check/fix after a partial sync, you do not want to fix parity
 					 * for blocks that are going to have it computed in the sync completion.
 					 *
-					 * For unused parity there is no need to write it, because when fixing
-					 * we already have allocated space for it on parity file creation,
-					 * and its content doesn't matter.
+					 * For unused parity its content doesn't matter, and it's never reported
+					 * as wrong, but if it cannot be read, like after recreating a lost parity
+					 * file, we write it anyway to not leave the file shorter than expected,
+					 * with the next check reporting again the same read error.
 					 */
-					if (used_parity && valid_parity) {
+					if (valid_parity) {
 						/* update the parity */
 						for (l = 0; l < state->level; ++l) {
 							/* if the parity on disk is wrong */
